@@ -33,11 +33,15 @@ T3 = [
 G5 = [DEFAULT, DEFAULT, I("http://a/g"), I("http://a/g"), B("g")]
 T4 = [(*t, g) for t, g in zip(T3, G5)]
 INPUTS = ("one", "five", "three_groups")
+HUGE = 3_000_000  # a literal of 3 MB: frames between 2 and 4 MiB
 
 
 def input_for(kind: str, arity: int) -> list[list]:
     """A list of groups (graphs/datasets); flat entry points get the concatenation."""
     base = T3 if arity == 3 else T4
+    if kind == "huge":
+        st = (I("http://a/x"), I("http://a/p"), L("z" * HUGE))
+        return [[st if arity == 3 else (*st, I("http://a/g"))]]
     if kind == "one":
         return [base[:1]]
     if kind == "five":
@@ -54,16 +58,22 @@ def make_flow(name: str, lt: int, fs: int):
     return cls(logical_type=lt)
 
 
-def build(case: dict):
+def build(case: dict, opts=None, poison: bool = False):
     """Return (bytes, delimited_written, stream or None). Raises on refusal."""
     api, cls, entry = case["api"], case["cls"], case["entry"]
     lt, dl, fs, flow_name = case["logical"], case["delimited"], case["frame_size"], case["flow"]
     arity = 3 if cls == "triple" else 4
     groups = input_for(case["input"], arity)
+    if poison:  # an input whose last statement is unencodable (the call must fail half-way)
+        groups = [list(g) for g in groups]
+        bad = list(groups[-1][-1])
+        bad[2] = ("X",)
+        groups[-1].append(tuple(bad))
     flat = [s for g in groups for s in g]
-    flow = None if flow_name == "inferred" else make_flow(flow_name, lt, fs)
-    opts = DR.make_options(cls, (8, 4, 2), fs, dl, lt, generalized=(api == "generic"),
-                           rdf_star=(api == "generic"), flow=flow)
+    if opts is None:
+        flow = None if flow_name == "inferred" else make_flow(flow_name, lt, fs)
+        opts = DR.make_options(cls, (8, 4, 2), fs, dl, lt, generalized=(api == "generic"),
+                               rdf_star=(api == "generic"), flow=flow)
     stream = None
     if api == "generic":
         from pyjelly.integrations.generic import serialize as ser  # noqa: PLC0415
@@ -114,7 +124,19 @@ def run_case(case: dict):
     flat = [s for g in input_for(case["input"], arity) for s in g]
     expect = T.norm_seq(flat)
     try:
-        data, delimited, stream = build(case)
+        if case.get("reuse"):
+            # the same options object was used before by a call that failed half-way
+            lt, fs = case["logical"], case["frame_size"]
+            opts = DR.make_options(case["cls"], (8, 4, 2), fs, case["delimited"], lt,
+                                   generalized=(case["api"] == "generic"),
+                                   rdf_star=(case["api"] == "generic"), flow=None)
+            try:
+                build(case, opts, poison=True)
+            except Exception:  # noqa: BLE001
+                pass
+            data, delimited, stream = build(case, opts)
+        else:
+            data, delimited, stream = build(case)
     except Exception as e:  # noqa: BLE001
         return "raised", type(e).__name__
     if not data:
@@ -164,7 +186,12 @@ def all_points(frame_sizes) -> list:
                                 for inp in INPUTS:
                                     if inp == "three_groups" and entry != "grouped_to_file":
                                         continue
-                                    pts.append((api, entry, cls, lt, dl, fs, flow, inp))
+                                    pts.append((api, entry, cls, lt, dl, fs, flow, inp, False))
+                                if flow == "inferred" and fs != 1:
+                                    # options object reused after a failed call
+                                    pts.append((api, entry, cls, lt, dl, fs, flow, "five", True))
+                                if flow == "inferred" and fs == 250 and lt in (0, 1, 2, 3, 4):
+                                    pts.append((api, entry, cls, lt, dl, fs, flow, "huge", False))
     return pts
 
 
@@ -172,9 +199,9 @@ def shard(job) -> dict:
     frame_sizes, lo, hi = job
     DR.ensure_rdflib_plugin()
     acc = pool.Acc()
-    for api, entry, cls, lt, dl, fs, flow, inp in all_points(frame_sizes)[lo:hi]:
+    for api, entry, cls, lt, dl, fs, flow, inp, reuse in all_points(frame_sizes)[lo:hi]:
         case = {"api": api, "entry": entry, "cls": cls, "logical": lt, "delimited": dl,
-                "frame_size": fs, "flow": flow, "input": inp}
+                "frame_size": fs, "flow": flow, "input": inp, "reuse": reuse}
         acc.evals += 1
         outcome, info = run_case(case)
         acc.counters[f"outcome:{outcome}"] += 1
@@ -187,7 +214,8 @@ def shard(job) -> dict:
             kind, msg = info
             flat_lt = lt in (1, 2)
             acc.violation({"fail": kind, "delimited": dl, "flat_logical": flat_lt,
-                           "flow": flow if flow != "inferred" else "inferred"},
+                           "flow": flow if flow != "inferred" else "inferred", "input": inp,
+                           "reuse": reuse},
                           f"{msg}: {case}", case)
         elif acc.evals % 211 == 0:
             acc.sample({**case, "outcome": outcome}, cap=3)
@@ -215,7 +243,8 @@ def run(ctx) -> None:
             "full lattice: {generic, rdflib} entry points x {Triple,Quad,Graph}Stream x 8 logical "
             f"types x delimited{{T,F}} x frame_size{list(frame_sizes)} x flow{{inferred + 6 "
             "FrameFlow classes}} x non-empty inputs (1 statement, 5 statements, 3 graphs/datasets "
-            "for the grouped entry point); non-trivial = configuration accepted (did not raise); "
+            "for the grouped entry point; with the inferred flow also one statement carrying a 3 MB "
+            "literal, and the same options object reused after a call that failed half-way); non-trivial = configuration accepted (did not raise); "
             "accepted points must have written everything (reference decoder + pyjelly read-back)"
         ),
     )
